@@ -76,7 +76,7 @@ func nameList(b []byte, build bool) (names []string, v Verdict, why string, info
 				return nil, Unspecified, WhyNamePtrOutside, info
 			}
 			ptr = true
-			hops := 0
+			hops, walked := 0, 0
 		target:
 			for {
 				if q >= n {
@@ -92,7 +92,9 @@ func nameList(b []byte, build bool) (names []string, v Verdict, why string, info
 					}
 					chain = true
 					hops++
-					if hops > n {
+					if hops > n || hops > 255 {
+						// more hops than a 255-octet name can have labels: a loop (or a pathological chain);
+						// bounding this keeps the reference linear on adversarial inputs
 						return nil, Unspecified, WhyNamePtrLoop, info
 					}
 					q = (y&0x3f)<<8 | int(b[q+1])
@@ -107,6 +109,11 @@ func nameList(b []byte, build bool) (names []string, v Verdict, why string, info
 					}
 					label(b[q+1 : q+1+y])
 					q += 1 + y
+					walked++
+					if walked > 130 {
+						// the name under construction already exceeds 255 octets
+						return nil, Unspecified, WhyNameLong, info
+					}
 				}
 			}
 			pos += 2
